@@ -83,6 +83,140 @@ def showOutcome (ch : Chan) : Outcome → String
   | .panic _ => "panic"
   | .fuel => "model-fuel"
 
+/-! ### arm tags (coverage accounting only: which branches of the model an op exercised) -/
+
+def cmp3 (tag : String) (a b : Nat) : String :=
+  if a < b then tag ++ "-lt" else if a = b then tag ++ "-eq" else tag ++ "-gt"
+
+def fldArm (name : String) (max : Nat) (rest : Bytes) : List String :=
+  match rest with
+  | a :: b :: c :: d :: r =>
+    let n := le32 a b c d
+    if n = 4294967295 then [name ++ "-null"]
+    else if n ≥ 2147483648 then [name ++ "-neg"]
+    else if n > max then [name ++ "-over-limit"]
+    else if r.length < n then [name ++ "-short-read"]
+    else [name ++ (if n = 0 then "-empty" else "-val")]
+  | _ => [name ++ "-no-length"]
+
+def padArms (pre : String) (dst : Bytes) (keySize padEnd : Nat) : List String :=
+  let m := if keySize > 256 then 2 else 1
+  if padEnd < m ∨ padEnd > dst.length then [pre ++ "-noroom"] else
+  let pb := (dst.drop (padEnd - m)).headD 0
+  let ps := if keySize > 256 then (dst.drop (padEnd - 1)).headD 0 * 256 + pb else pb
+  if ps + m > padEnd then [pre ++ "-size-gt-end"]
+  else
+    let start := padEnd - ps - m
+    let bnd := if ps + m = padEnd then [pre ++ "-size-eq-end"] else []
+    bnd ++ (if ((dst.drop start).take (ps + 1)).all (· == pb) then [pre ++ "-ok", cmp3 (pre ++ "-len") ps 1]
+            else [pre ++ "-bytes-bad"])
+
+def symArms (C : Crypto) (ch : Chan) (src : Bytes) : List String :=
+  if ¬ ch.secured then [if ch.policy = .none then "sym-pass-policy-none" else "sym-pass-mode-" ++
+      (match ch.mode with | .none => "none" | .invalid => "invalid" | _ => "x")] else
+  let sig := ch.policy.symSig
+  let n := src.length
+  [cmp3 "sym-len-vs-hdr+sig" n (16 + sig)] ++
+  (if n < 16 + sig then [] else
+   if !ch.keys then ["sym-no-keys"] else
+   if ch.mode = .sign then
+     [if C.hmacOk ch.policy (src.take (n - sig)) (src.drop (n - sig)) then "sign-hmac-ok" else "sign-hmac-bad"]
+   else
+     let ct := src.drop 16
+     if ct.length % 16 ≠ 0 then ["se-aes-unaligned"] else
+     ["se-aes-aligned"] ++
+     match C.aesDec ct with
+     | none => ["se-aes-error"]
+     | some pt =>
+       let dst := src.take 16 ++ pt
+       if C.hmacOk ch.policy (dst.take (n - sig)) ((dst.drop (n - sig)).take sig) then
+         ["se-hmac-ok"] ++ padArms "se-pad" dst sig (n - sig)
+       else ["se-hmac-bad"])
+
+def opnArms (C : Crypto) (ch : Chan) (src : Bytes) (ah : AsymHdr) (start : Nat) : List String :=
+  let up := policyOfUri ah.uri.bytes
+  let g := if ¬ ch.secured then "opn-on-unsecured" else if up = some ch.policy then "opn-on-secured-same-policy"
+           else "opn-on-secured-other-policy"
+  [g] ++
+  (if ch.secured ∧ up ≠ some ch.policy then [] else
+   match up with
+   | none => ["opn-uri-unknown"]
+   | some .none => ["opn-uri-none"]
+   | some p =>
+     ["opn-uri-" ++ p.name] ++
+     match ah.cert with
+     | .null => ["opn-cert-null"]
+     | .val cert =>
+       match C.x509 cert with
+       | none => ["opn-cert-not-x509"]
+       | some none => ["opn-cert-no-pubkey"]
+       | some (some vk) =>
+         match ch.ownCert with
+         | none => ["opn-no-own-cert"]
+         | some keySize =>
+           if !(C.thumbEq ah.thumb.bytes) then ["opn-thumb-mismatch"] else
+           match ch.ownKey with
+           | none => ["opn-no-own-key"]
+           | some k =>
+             let enc := src.drop start
+             if enc.length % k ≠ 0 then ["opn-rsa-unaligned"] else
+             [cmp3 "opn-rsa-blocks" (enc.length / k) 1] ++
+             match rsaLoop C p k enc.length enc.length 0 enc [] with
+             | .done plain =>
+               if start + plain.length < vk then ["opn-sig-underflow"] else
+               let sigOff := start + plain.length - vk
+               let dst := src.take start ++ plain ++ List.replicate (src.length - start - plain.length) 0
+               ["opn-rsa-ok", cmp3 "opn-plain-vs-sig" plain.length vk] ++
+               match C.rsaVerify p cert (dst.take sigOff) ((dst.drop sigOff).take vk) with
+               | none => ["opn-verify-error"]
+               | some false => ["opn-verify-false"]
+               | some true => ["opn-verify-true"] ++
+                   padArms (if keySize > 256 then "opn-pad2" else "opn-pad1") dst keySize sigOff
+             | .fail => ["opn-rsa-reject"]
+             | _ => ["opn-rsa-other"])
+
+def modeName : Mode → String
+  | .none => "none" | .sign => "sign" | .signEncrypt => "se" | .invalid => "invalid"
+
+def armsOf (C : Crypto) (ch : Chan) (src : Bytes) : List String :=
+  let cfg := ["cfg-" ++ ch.policy.name ++ "-" ++ modeName ch.mode]
+  match rdHeader src with
+  | none =>
+    cfg ++ [if src.length < 12 then "hdr-short"
+     else if (src.take 3 ≠ [77, 83, 71] ∧ src.take 3 ≠ [79, 80, 78] ∧ src.take 3 ≠ [67, 76, 79]) then "hdr-bad-type"
+     else "hdr-bad-final-flag"]
+  | some (t, size, rest) =>
+    let f := (src.drop 3).headD 0
+    let tt := match t with | .msg => "type-msg" | .opn => "type-opn" | .clo => "type-clo"
+    let ff := if f = 70 then "flag-F" else if f = 67 then "flag-C" else "flag-A"
+    cfg ++ [tt, ff] ++
+    match t with
+    | .opn =>
+      (match rdAsym ch rest with
+       | none =>
+         -- which of the three fields broke the decoding
+         (match rdField ch.maxStr rest with
+          | none => fldArm "uri" ch.maxStr rest
+          | some (u, r1) =>
+            if !(utf8Valid u.bytes.length u.bytes) then ["uri-bad-utf8"] else
+            match rdField ch.maxBs r1 with
+            | none => fldArm "cert" ch.maxBs r1
+            | some (c, r2) =>
+              match rdField ch.maxBs r2 with
+              | none => fldArm "thumb" ch.maxBs r2
+              | some (t, _) =>
+                if c.bytes.length ≥ 32767 then ["cert-too-long"]
+                else [cmp3 "thumb-len-vs-20" t.bytes.length 20])
+       | some (ah, rest') =>
+         [cmp3 "size-field" size src.length] ++
+         (if size ≠ src.length then [] else
+          fldArm "uri" ch.maxStr rest ++ [cmp3 "thumb-len-vs-20" ah.thumb.bytes.length 20] ++
+          (if ah.thumb = .null then ["thumb-null"] else []) ++
+          opnArms C ch src ah (src.length - rest'.length)))
+    | _ =>
+      if rest.length < 4 then ["sym-hdr-short"] else
+      [cmp3 "size-field" size src.length] ++ (if size ≠ src.length then [] else symArms C ch src)
+
 def defaultChan : Chan :=
   { policy := .none, mode := .none, ownCert := none, ownKey := none, keys := false,
     maxStr := 65535, maxBs := 65535 }
@@ -104,11 +238,30 @@ def dstepWith (F : Fixes) (ch : Chan) (toks : List String) : Chan × String :=
     match parseReset? rest with
     | some ch' => (ch', s!"ok p={ch'.policy.name}")
     | none => (ch, "bad-op")
+  | ["setmode", m] =>
+    match parseMode? m with
+    | some m => ({ ch with mode := m }, s!"ok p={ch.policy.name} @@ set-mode-{modeName m}")
+    | none => (ch, "bad-op")
+  | ["setpolicy", p] =>
+    match parsePolicy? p with
+    | some p => ({ ch with policy := p }, s!"ok p={p.name} @@ set-policy-{p.name}")
+    | none => (ch, "bad-op")
+  | ["setlimits", a, b] =>
+    match a.toNat?, b.toNat? with
+    | some a, some b => ({ ch with maxStr := a, maxBs := b }, s!"ok p={ch.policy.name} @@ set-limits")
+    | _, _ => (ch, "bad-op")
+  | ["rekey", _] =>
+    -- new nonces + derive_keys (renewal): nothing the receive path reads changes but the keys themselves
+    if ch.policy = .none then (ch, "bad-op")
+    else ({ ch with keys := true }, s!"ok p={ch.policy.name} @@ rekey")
+  | ["derive"] =>
+    if ch.policy = .none then (ch, "bad-op")
+    else ({ ch with keys := true }, s!"ok p={ch.policy.name} @@ derive-keys")
   | ["recv", _, src, cert, thumb, rsa, ver, aes, hm] =>
     match hexToBytes src, parseAnswers? cert thumb rsa ver aes hm with
     | some src, some a =>
       let (ch', o) := recvWith F (oracle a) ch src
-      (ch', showOutcome ch' o)
+      (ch', showOutcome ch' o ++ " @@ " ++ ",".intercalate (armsOf (oracle a) ch src))
     | _, _ => (ch, "bad-op")
   | _ => (ch, "bad-op")
 
